@@ -69,8 +69,14 @@ def run(R):
     else:
         g = PR.discr_guard(ej, nxt[0], "Some")
         hdr, body = PR.loop_of(ej, nxt[0].bb)
-        ex = [c for c in ej.calls if c.bb in body and c.func.get("trait", "").startswith("core::ops::function::Fn")]
-        mg = [c for c in ej.calls if c.bb in body and short(c.name) == J + "extend_option_result_row"]
+        ex = [c for c in ej.calls if c.bb in body and (c.func.get("trait") or "").startswith("core::ops::function::Fn")]
+        # consumers of the pair's result: calls in the loop body that receive the value returned by the execute call
+        mg = []
+        if len(ex) == 1:
+            for c in ej.calls:
+                if c.bb in body and c is not ex[0] and not re.search(r"Try>::branch$|from_residual$", short(c.name)):
+                    if any(o.kind == "call" and o.call is ex[0] for a_ in c.args for o in F.origins(ej, a_, depth=10)):
+                        mg.append(c)
         okc = len(ex) == 1 and len(mg) == 1
         if okc:
             r1 = count_range(ej, g[1], {hdr}, {ex[0].bb})
@@ -88,20 +94,28 @@ def run(R):
             if not any(short(c.name).endswith("::from_residual") for c in ej.calls if c.bb in reg):
                 silent.append(y)
         if okc and not silent and not ad:
-            R.ok("C05.pairs", "execute_join", "one execute + one merge per partner on every path; only error exits; plain slice traversal", nxt[0].loc())
+            R.ok("C05.pairs", "execute_join", "one execute + one consumer of its result per partner on every path; only error exits; plain slice traversal",
+                 nxt[0].loc())
         else:
             R.violation("C05.pairs", "execute_join|per-partner",
-                        "execute_join does not execute and merge every partner exactly once (execute calls %d, merge calls %d, early exits %d, adapters %s): "
+                        "execute_join does not execute and merge every partner exactly once (execute calls %d, result consumers %d, early exits %d, adapters %s): "
                         "pairs of one input row can be dropped or duplicated" % (len(ex), len(mg), len(silent), [short(c.name).split("::")[-1] for c in ad]),
                         [nxt[0].loc()])
-    xf = R.need_fn(J + "extend_option_result_row")
-    xn = [short(c.name) for c in xf.calls]
-    early = [c for c in xf.calls if re.search(r"Try>::branch$", short(c.name))]
-    if any(n.endswith("Extend<T>>::extend") or n.endswith("::extend") or n.endswith("Vec::append") or n.endswith("extend_from_slice") for n in xn) and not early:
-        R.ok("C05.pairs", "extend_option_result_row", "None results are skipped, others appended in order", xf.loc())
-    else:
-        R.violation("C05.pairs", "extend_option_result_row|shape", "the per-pair merge is no longer `append the pair's rows, skip None` (callees %s)" % xn,
-                    [xf.loc()])
+    # helpers of the merge (join.rs functions reachable from execute_join): a pair without output must be skipped, not abort the merge
+    reach = P.reachable([ej])
+    n_help = 0
+    for k in sorted(reach):
+        g_ = P.fns[k]
+        if not g_.spath.startswith(J) or g_.spath.endswith("create_joined_column_mapping"):
+            continue
+        n_help += 1
+        opt_try = [c for c in g_.calls if re.search(r"Try>::branch$", short(c.name)) and (c.func.get("res_targs") or c.targs or [""])[0].startswith("core::option::Option<")]
+        if opt_try and g_.key != ej.key:
+            R.violation("C05.pairs", "%s|option-early-return" % g_.spath.split("::")[-1],
+                        "%s returns early when a pair produced no output row (`?` on an Option): the remaining pairs of the same input row are dropped"
+                        % g_.path, [opt_try[0].loc()])
+        elif g_.key != ej.key:
+            R.ok("C05.pairs", g_.spath.split("::")[-1], "no early return on an empty pair result", g_.loc())
     # bucket type
     a = P.adts.get(J + "JoinedTableData")
     rows_ty = [fl["ty"] for v in (a or {"variants": []})["variants"] for fl in v["fields"] if fl["name"] == "rows"]
